@@ -202,9 +202,11 @@ func (b *UnsafeLinkBuffer) Peek(n int) (p []byte, err error) {
 
 	// multiple nodes
 
-	// try to make use of the cap of b.cachePeek, if can't, free it.
+	// try to make use of the cap of b.cachePeek, if can't, retire it.
+	// It cannot be freed right now: the result of an earlier Peek may still refer to it,
+	// so it is kept in b.caches and freed by the next Release.
 	if b.cachePeek != nil && cap(b.cachePeek) < n {
-		free(b.cachePeek)
+		b.caches = append(b.caches, b.cachePeek)
 		b.cachePeek = nil
 	}
 	if b.cachePeek == nil {
